@@ -9,7 +9,10 @@ RULE = ("TLC enumerates every environment behaviour of TxImpl.tla (the transactO
         "begin retry + body of <= N statements of 4 kinds + commit/rollback outcome): every placement and "
         "combination of faults (begin fails / bad connection / no connection, k-th statement fails, body "
         "returns nil/error/panics after k statements -- also nil after a failed statement --, commit fails, "
-        "rollback fails). Each script is replayed on the real sqlx.SqlConn / sqlc.CachedConn Transact[Ctx] over "
+        "rollback fails); in two further enumerations every fault point answers with every error VALUE of a "
+        "list (ordinary error, driver.ErrBadConn, sql.ErrTxDone, sql.ErrNoRows, context.Canceled, ...), and the "
+        "caller's context of TransactCtx is cancelled / expires before the call or after k statements of the "
+        "body (k = all: just before the deferred commit/rollback). Each script is replayed on the real sqlx.SqlConn / sqlc.CachedConn Transact[Ctx] over "
         "a harness database/sql driver that injects exactly these faults and logs what the database saw; "
         "seeded multi-call sequences (shared breaker/pool, breaker storms) and concurrent transactions are "
         "added; every recorded trace is validated by TLC against TxOnce.tla. "
@@ -23,8 +26,10 @@ BIND = "zz_verif_tx_test.go"
 
 APIS = ["sqlx.Transact", "sqlx.TransactCtx", "sqlc.Transact", "sqlc.TransactCtx"]
 CTORS = ["fromdb", "named"]
-BUGS = ["panicSwallowed", "commitErrDropped", "commitOnAcceptable", "rollbackIfStmtFailed", "panicNotRecovered", "rollbackErrDropped",
-        "commitOnErr", "noEndOnErr", "bodyWithoutBegin"]
+BUGS = ["panicSwallowed", "commitErrDropped", "ctxDoneNoEnd", "retryOnBadConn",      # quick: the first three
+        "commitOnAcceptable", "rollbackIfStmtFailed", "panicNotRecovered", "rollbackErrDropped",
+        "commitOnErr", "noEndOnErr", "bodyWithoutBegin", "ctxDoneRollback"]
+CTX_APIS = ["sqlx.TransactCtx", "sqlc.TransactCtx"]      # only these take a caller context
 
 
 def _files(run, pkg):
@@ -49,6 +54,8 @@ def _norm(b):
     for k in ("begin", "stmts"):
         if not isinstance(script.get(k), list):      # ToJson renders an empty sequence ambiguously
             script[k] = []
+    script.setdefault("fk", "none")
+    script.setdefault("cx", {"at": "none", "k": 0, "how": "none"})
     pred = [(x["e"], x["a"], sorted(x["rep"]) if isinstance(x.get("rep"), list) else [])
             for x in (b["log"] if isinstance(b["log"], list) else [])]
     return {"script": script, "pred": pred}
@@ -60,7 +67,11 @@ def _observed(events):
     okf = lambda e: "ok" if e["ok"] else "fail"
     for e in events:
         k = e["e"]
-        if k in ("begin", "commit", "rollback"):
+        if k == "begin":
+            out.append((k, "fail" if not e["ok"] else "okb" if e.get("b") else "ok", []))
+        elif k == "ctxDone":
+            out.append((k, "", []))
+        elif k in ("commit", "rollback"):
             out.append((k, okf(e), []))
         elif k == "body":
             out.append((k, "", []))
@@ -75,6 +86,19 @@ def _observed(events):
             out.append((k, "panic" if e["p"] else "nil" if e["nil"] else "err",
                         sorted(set(e["rep"]) & {"commit", "rollback"})))
     return out
+
+
+def _has_ctx(sc):
+    return sc["script"]["cx"]["at"] != "none"
+
+
+def _has_ids(sc):
+    """does the script use an error value other than the harness' ordinary error anywhere?"""
+    s = sc["script"]
+    return (any(x.get("ek", "none") not in ("none", "plain") for x in s["stmts"])
+            or s.get("fk", "none") not in ("none", "plain")
+            or s.get("ek") in ("bad", "deadline")
+            or any(str(b).startswith("f:") for b in s["begin"]))
 
 
 def _compare(run, trace_file, mine):
@@ -152,22 +176,45 @@ def check(run):
         "contains its text, or says 'commit'/'rollback' in words",
         "neighbouring behaviour also demanded: a nested Transact on a transaction session is refused "
         "(errCantNestTx) and statements reach the open transaction of their own call",
-        "faults are those of the property's quantifier; context cancellation is not injected",
-        "Go's database/sql (begin retry on driver.ErrBadConn, connection pool) is trusted",
+        "faults are those of the property's quantifier, each with several error values (driver.ErrBadConn, "
+        "sql.ErrTxDone, sql.ErrNoRows, context.Canceled/DeadlineExceeded, io.EOF, sql.ErrConnDone, an ordinary error)",
+        "the caller's context: not in the property's fault list, but the statement does not except it either -- a "
+        "context that ends before the call or between statements of the body (cancel, or a deadline context of the "
+        "harness: no timers) excuses nothing, EXCEPT for a transaction the driver sees begun on a context that can "
+        "end (sql.DB.BeginTx(ctx); go-zero uses sql.DB.Begin(), so never here): database/sql itself then rolls it "
+        "back asynchronously and its Commit returns the context error, which TxOnce.tla accepts (Excused) and "
+        "TxImplMCbound.cfg checks against a model of that behaviour; the context never ends while a driver call "
+        "is in flight",
+        "Go's database/sql (begin retry on driver.ErrBadConn, connection pool, refusing statements on a context "
+        "that is done) is trusted",
     ]
     inv = "H_* clauses + consequences as invariants"
     # ---- design level
     run.model_check(FAM, "TxOnceMC", "TxOnceMC.cfg", workers=4, note="guarded machine, 1 call, <=3 stmts, <=3 failed begins: " + inv)
+    if thorough:    # (quick: TxOnceFreeCtx + TxOnceMCU below cover the context at design level)
+        run.model_check(FAM, "TxOnceMC", "TxOnceMCctx3.cfg", workers=8,
+                        note="the same with the caller's context ending at any moment and context-bound transactions: "
+                             + inv + ", CtxExcusesNothing")
     run.model_check(FAM, "TxOnceMC", "TxOnceFree.cfg", workers=4,
                     note="every event at every moment (depth 7): guards violated <=> a declarative clause violated")
+    run.model_check(FAM, "TxOnceMC", "TxOnceFreeCtx7.cfg" if thorough else "TxOnceFreeCtx.cfg", workers=4,
+                    note="the same incl. ctxDone and context-bound begins (depth %d)" % (7 if thorough else 5))
     run.model_check(FAM, "TxImpl", "TxImplMC.cfg" if thorough else "TxImplMCq.cfg", workers=4,
                     note="transactOnConn algorithm, all fault placements, <=3 stmts x 4 kinds, breaker may reject"
                          + ("" if thorough else " (2 error kinds)"))
+    run.model_check(FAM, "TxImpl", "TxImplMCctx.cfg" if thorough else "TxImplMCctxq.cfg", workers=4,
+                    note="the algorithm with the caller's context ending before the call / after k statements and "
+                         "error identities at every fault point" + ("" if thorough else " (<=2 stmts of 2 kinds)")
+                         + ": NoDeviation, CtxBlind")
+    if thorough:    # (the allowance never applies to /repo: sql.DB.Begin() binds nothing)
+        run.model_check(FAM, "TxImpl", "TxImplMCbound.cfg", workers=4,
+                        note="a context-bound algorithm (BeginTx(ctx)) + database/sql's asynchronous rollback satisfies "
+                             "TxOnce: the allowance Excused() admits what database/sql does on its own")
     run.model_check(FAM, "TxOnceMC", "TxOnceMCU.cfg", workers=2,
                     note="two calls, ANY number of statements / failed begins (history hidden by VIEW): StateInv")
     run.model_check(FAM, "TxImpl", "TxImplMCU.cfg", workers=2,
                     note="algorithm with bodies of ANY length (script+history hidden by VIEW): NoDeviation, StateInv")
-    for b in (BUGS if thorough else BUGS[:2]):
+    for b in (BUGS if thorough else BUGS[:3]):
         run.model_check(FAM, "TxImpl", "TxImplBug_%s.cfg" % b, workers=1, expect="violation",
                         note="seeded defect '%s' violates NoDeviation" % b)
     if thorough:
@@ -195,6 +242,21 @@ def check(run):
             else:                               # bodies of 2 statements: one sqlx and one sqlc api, rotating
                 for j, api in enumerate([APIS[k % 2], APIS[2 + (k // 2) % 2]]):
                     cases.append({"api": api, "ctor": CTORS[(k // 4 + j) % 2], "script": sc["script"], "pred": sc["pred"]})
+    # ---- the two further dimensions: error identity at every fault point; the caller's context
+    gens = ["TxImplGenErrX.cfg", "TxImplGenErr3.cfg"] if thorough else ["TxImplGenErr2.cfg"]
+    errs = [sc for g in gens for sc in (_norm(b) for b in run.generate(FAM, "TxImpl", g)) if _has_ids(sc)]
+    for i, sc in enumerate(errs):               # one api each, rotating over all four
+        k = i + run.seed
+        cases.append({"api": APIS[k % 4], "ctor": CTORS[(k // 4) % 2], "script": sc["script"], "pred": sc["pred"]})
+    ctxs = [sc for sc in (_norm(b) for b in run.generate(FAM, "TxImpl", "TxImplGenCtx3.cfg" if thorough else "TxImplGenCtx2.cfg"))
+            if _has_ctx(sc)]
+    for i, sc in enumerate(ctxs):
+        k = i + run.seed
+        apis = CTX_APIS if (not thorough or len(sc["script"]["stmts"]) < 3) else [CTX_APIS[k % 2]]
+        for j, api in enumerate(apis):
+            cases.append({"api": api, "ctor": CTORS[(k // 2 + j) % 2], "script": sc["script"], "pred": sc["pred"]})
+    run.extra["scripts"] = {"fault_placement": len(beh if thorough else beh2),
+                            "error_identity": len(errs), "caller_context": len(ctxs)}
     # ---- the real code: every script replayed + (code -> spec) multi-call sequences on one
     # connection object, breaker storms and concurrent transactions; TLC validates every trace
     _drive(run, cases)
@@ -208,12 +270,15 @@ LEVEL_TEXT = ("Exhaustive TLC model checking of the transaction algorithm agains
               "(bodies <= 3 statements of 4 kinds with full histories; <= 5 in the thorough tier; bodies of any length "
               "for the state-level form of the property, history hidden by a VIEW), a TLC cross-check that the operational "
               "guards and the declarative clauses of the property agree on every event sequence up to depth 7, and "
-              "conformance: every TLC-enumerated fault script (quick: 3085 scripts with bodies <= 2 statements, thorough: 21607 scripts with bodies <= 3; each on 2-4 of the 4 APIs, both constructors) is executed on the real "
+              "conformance: every TLC-enumerated fault script (quick: 3085 scripts with bodies <= 2 statements, thorough: 21607 scripts with bodies <= 3; each on 2-4 of the 4 APIs, both constructors; plus the scripts of the "
+              "error-identity enumeration (quick 2096: 4 error values x every fault point, bodies <= 2; thorough ~25000: 8 error values) "
+              "on one API each and of the caller-context enumeration (quick 930, thorough ~6500: context cancelled / deadline-expired "
+              "before the call and after each k statements) on both TransactCtx APIs; measured counts in coverage.scripts) is executed on the real "
               "Transact/TransactCtx of sqlx.SqlConn and sqlc.CachedConn over a fault-injecting database/sql driver "
               "and the recorded events are validated by TLC against TxOnce.tla.")
 LEVEL_NOTE = ("Trusted: TLC/SANY, Go toolchain and database/sql, the harness driver's event order. Bodies longer than the "
-              "bound are sampled (random sequences, <= 6 statements). Faults outside the property's quantifier "
-              "(context cancellation, panics inside the driver) are not injected.")
+              "bound are sampled (random sequences, <= 6 statements, random error values, context ending in one call "
+              "of five). Not injected: panics inside the driver, a context ending while a driver call is in flight.")
 TECHNIQUE = "TLA+ spec (TxOnce/TxImpl), TLC exhaustive fault enumeration, replay on real code, TLC trace validation"
 DESIGN_REF = "DESIGN.md Part B C14"
 
